@@ -87,6 +87,11 @@ def ev(t, env=None):
         return math.acos(v) if -1.0 <= v <= 1.0 else float("nan")
     if op == "nan":      # the documented formula has no value (X01)
         return float("nan")
+    if op == "fq":       # factored rational sign * prod p^e: ["fq", sign, [[p, e], ...]] (SphHarm.tla ShFQ; X01: Wigner 3-j)
+        v = float(t[1])
+        for p_, e_ in t[2]:
+            v *= float(p_) ** int(e_)
+        return v
     raise ValueError(f"unknown term constructor {op!r}")
 
 
